@@ -51,6 +51,10 @@ theorem HT.post {m : M α} (h : HT cfg env P m Q') (hq : ∀ a s, Inv cfg s → 
 theorem HT.ghost {m : M α} (h : ∀ R0, HT cfg env (fun R => R = R0 ∧ P R) m Q) : HT cfg env P m Q :=
   fun st hi hz hp => h st.sys.runs st hi hz ⟨rfl, hp⟩
 
+/-- fix the histories the operation starts from; what the precondition says about them becomes a hypothesis -/
+theorem HT.fix {m : M α} (h : ∀ R0, P R0 → HT cfg env (fun R => R = R0) m Q) : HT cfg env P m Q :=
+  fun st hi hz hp => h st.sys.runs hp st hi hz rfl
+
 /-- a state-independent part of the precondition becomes a hypothesis -/
 theorem HT.pull {φ : Prop} {m : M α} (h : φ → HT cfg env P m Q) : HT cfg env (fun R => P R ∧ φ) m Q :=
   fun st hi hz hp => h hp.2 st hi hz hp.1
@@ -225,5 +229,74 @@ theorem HT.of_pres {m : M α} (hr : Pres RelayInv m) (hruns : ∀ R, Pres (fun s
   intro st hi hzz hp
   have h1 := hruns st.sys.runs env st rfl
   exact ⟨hi.frame h1 (hr env st hi.relay), hz st hzz, fun _ _ => by rw [h1]; exact hp⟩
+
+end WorkflowModel.Engine
+
+namespace WorkflowModel.Engine
+open WorkflowModel
+/-! ## operations that never touch the histories: a frame judgement that also covers aborted runs -/
+
+/-- `m` leaves the histories alone and keeps reads current, however it ends -/
+def Fr {α : Type} (m : M α) : Prop :=
+  ∀ env st, (m env st).2.sys.runs = st.sys.runs ∧ ((m env st).2.stale = st.stale ∨ (m env st).2.stale = 0)
+
+variable {α β : Type}
+
+theorem Fr.pure (a : α) : Fr (Pure.pure a : M α) := fun _ _ => ⟨rfl, Or.inl rfl⟩
+theorem Fr.throwA (a : Abort) : Fr (Engine.throwA a : M α) := fun _ _ => ⟨rfl, Or.inl rfl⟩
+theorem Fr.emit (l : String) : Fr (Engine.emit l) := fun _ _ => ⟨rfl, Or.inl rfl⟩
+theorem Fr.getSys : Fr Engine.getSys := fun _ _ => ⟨rfl, Or.inl rfl⟩
+theorem Fr.nextOutcome : Fr Engine.nextOutcome := fun _ _ => ⟨rfl, Or.inl rfl⟩
+theorem Fr.loseLease : Fr Engine.loseLease := fun _ _ => ⟨rfl, Or.inl rfl⟩
+
+theorem Fr.bind {m : M α} {f : α → M β} (h1 : Fr m) (h2 : ∀ a, Fr (f a)) : Fr (m >>= f) := by
+  intro env st
+  rw [bind_run]
+  have := h1 env st
+  rcases hm : m env st with ⟨r, st'⟩
+  rw [hm] at this
+  cases r with
+  | error e => exact this
+  | ok a =>
+    have h := h2 a env st'
+    refine ⟨by rw [h.1, this.1], ?_⟩
+    rcases h.2 with h' | h'
+    · rw [h']; exact this.2
+    · exact Or.inr h'
+
+theorem Fr.tryM {m : M α} (h : Fr m) : Fr (Engine.tryM m) := by
+  intro env st
+  have := h env st
+  unfold Engine.tryM
+  rcases hm : m env st with ⟨r, st'⟩
+  rw [hm] at this
+  cases r <;> exact this
+
+theorem Fr.call {l : String} {eff : Sys → (String × Except Abort α × Sys)} (hf : ∀ s, (eff s).2.2.runs = s.runs) :
+    Fr (Engine.call l eff) := by
+  intro env st
+  refine ⟨?_, Or.inl (call_stale env st)⟩
+  rcases call_sys l eff env st with ⟨h, _⟩ | h
+  · rw [h]
+  · rw [h, hf]
+
+theorem Fr.forM {γ : Type} {f : γ → M PUnit} (l : List γ) (h : ∀ x, Fr (f x)) : Fr (l.forM f) := by
+  induction l with
+  | nil => exact Fr.pure _
+  | cons x xs ih =>
+    show Fr (List.forM (x :: xs) f)
+    unfold List.forM
+    exact Fr.bind (h x) (fun _ => ih)
+
+variable {cfg : Cfg} {env : Env} {P : List RunS → Prop}
+
+/-- a frame operation preserves any statement about the histories -/
+theorem HT.of_frame {m : M α} (hf : Fr m) (hr : Pres RelayInv m) : HT cfg env P m (fun _ => P) := by
+  intro st hi hz hp
+  have h := hf env st
+  refine ⟨hi.frame h.1 (hr env st hi.relay), ?_, fun _ _ => by rw [h.1]; exact hp⟩
+  rcases h.2 with h' | h'
+  · rw [h']; exact hz
+  · exact h'
 
 end WorkflowModel.Engine
